@@ -64,12 +64,17 @@ impl<'a> PrettyPrinter<'a> {
         let ctx = ctx.suppress_breaks();
         let mut doc = self.arena.nil();
         let mut peek_hash = false;
-        for node in math.to_untyped().children() {
+        let mut children = math.to_untyped().children().peekable();
+        while let Some(node) = children.next() {
             let at_hash = peek_hash;
             peek_hash = false;
             if let Some(expr) = node.cast::<Expr>() {
                 let ctx = ctx.with_mode_if(Mode::Code, at_hash);
-                let expr_doc = self.convert_expr(ctx, expr);
+                // Content directly behind embedded code, as in `#(1)x`.
+                let glued = at_hash
+                    && matches!(expr, Expr::Parenthesized(_))
+                    && (children.peek()).is_some_and(|next| next.kind() != SyntaxKind::Space);
+                let expr_doc = self.convert_expr(ctx.with_glued(glued), expr);
                 doc += expr_doc;
             } else if let Some(space) = node.cast::<Space>() {
                 doc += self.convert_space(space);
